@@ -3,22 +3,25 @@
 
    Vocabulary (coq/model/DoLTS.v):
      scen        a scenario: the sender's straight-line program (what sendQuery / sendInput do for this query:
-                 closed check, encodes, column gates, flushes, the colInfo wait, context checks, OnInput calls),
-                 the server script (packets readable once the client has written [avail] chunks), a cut of the
-                 server stream between or inside packets, a client Write that fails with or without a partial write;
+                 closed check, encodes, column gates, flushes, the colInfo wait, context checks, OnInput calls; an
+                 encode that fails: QSelX = sendQuery itself fails on external data that cannot be encoded),
+                 the server script (packets readable once the client has written [avail] chunks; the schema block
+                 of an INSERT may be repeated any number of times), a cut of the server stream between or inside
+                 packets, a client Write that fails with or without a partial write, the Write of the Cancel packet
+                 failing ([sc_cancel_wfault]), conn.Close reporting an error although it closed ([sc_close_err]);
      run fx sc sched s   the state after the scheduler choices [sched : list (who * bool)] over the sender (GS),
                  receiver (GR), cancel-watch (GW), the goroutine that called Do (GM: g.Wait, then queryFailed)
                  and the environment step "the caller's context ends" (GEnv); the boolean resolves a read that
                  times out and a select with two ready cases.  Steps of a blocked or finished goroutine are no-ops,
                  so EVERY list is a schedule;
-     all_fixed   the code as it is now; as_found: before the commits de4f5b3 899c6af 4c3f9a3;
+     all_fixed   the code as it is now; as_found: before the commits de4f5b3 899c6af 4c3f9a3 8cdbcdc;
      wf_prog     the sender's program leaves the writer empty or ending a packet at every flush (true of every
                  program [compile] produces: compile_is_wf);
      terminal    Do has returned; failed: with an error;
      clean       nothing encoded is waiting to be sent, the receiver stopped exactly after a packet, that packet
                  ended the query on the server's side, and what was written ends at a packet boundary;
      safe        closed \/ clean. *)
-From CH Require Import model.DoLTS proofs.DoLTSProofs proofs.DoLTSProofs2.
+From CH Require Import model.DoLTS proofs.DoLTSProofs proofs.DoLTSProofs2 proofs.DoLTSProofs3.
 
 (* every scenario, every fault, EVERY schedule: when Do has returned an error, the client is closed or clean *)
 Theorem do_safe : forall sc sched s,
@@ -102,6 +105,43 @@ Theorem pinv_reachable : forall fx sc sched,
 Proof. exact pinv_run. Qed.
 Print Assumptions pinv_reachable.
 
+(* a server that repeats the schema block of an INSERT, or otherwise leaves the receiver waiting, is the third
+   disjunct of do_progress_partial; what ends that wait is stated in props/C10.v: do_returns_when_context_ends
+   (once the group's context is done a bounded schedule reaches a final state, for every script) and
+   do_returns_without_cancel_refuted (and not before). *)
+
+(* sendQuery itself fails (external data that cannot be encoded; the error arises after the Query packet was
+   encoded into the writer and before anything is flushed): no data Write ever reaches the connection, whatever the
+   schedule; do_safe / do_open_only_after_exception apply to the scenario as to any other (the client ends closed,
+   or open after a server exception with the writer emptied), and next_request_clean says that what was encoded for
+   the failed query is never sent ahead of the next request *)
+Theorem sendquery_failure_sends_nothing : forall comp gate rows0 rounds sc sched s,
+  sc_prog sc = compile QSelX comp gate rows0 rounds -> s = run all_fixed sc sched (init sc) ->
+  nwcalls s = 0 /\ nw s = 0 /\ data_toks (wire s) = [].
+Proof. exact sendquery_failure_sends_nothing_thm. Qed.
+Print Assumptions sendquery_failure_sends_nothing.
+
+(* more generally: a program that never reaches a flush writes no data *)
+Theorem no_flush_no_data : forall sc sched s,
+  has_flush (sc_prog sc) = false -> s = run all_fixed sc sched (init sc) ->
+  nwcalls s = 0 /\ nw s = 0 /\ data_toks (wire s) = [].
+Proof. exact no_flush_no_data_thm. Qed.
+Print Assumptions no_flush_no_data.
+
+(* what conn.Close returns is an environment choice (crypto/tls reports an error when close_notify cannot be sent,
+   and has closed the socket): no step of Do reads it - the whole state, in particular the flag [closed], is the
+   same for both choices, for every configuration, scenario and schedule.  (Client.Close sets the flag BEFORE it
+   calls conn.Close; every caller on the failure paths drops or merely reports Close's error.) *)
+Theorem close_result_irrelevant : forall fx sc b sched,
+  run fx (with_close_err b sc) sched (init (with_close_err b sc)) = run fx sc sched (init sc).
+Proof. exact close_result_irrelevant_thm. Qed.
+Print Assumptions close_result_irrelevant.
+
+Theorem closed_flag_independent_of_close_result : forall fx sc b sched,
+  closed (run fx (with_close_err b sc) sched (init (with_close_err b sc))) = closed (run fx sc sched (init sc)).
+Proof. exact closed_flag_independent_thm. Qed.
+Print Assumptions closed_flag_independent_of_close_result.
+
 (* the code as found did NOT have the property: a failing result callback with the watcher deciding between
    close(done) and errgroup's cancel leaves the client open in the middle of the result stream (witness_7);
    an exception arriving while a block is encoded leaves that block queued ahead of the next request
@@ -123,6 +163,22 @@ Theorem do_safe_refuted_partial_write : let s := run as_found sc_w9 sch_w9 (init
 Proof. exact witness_9. Qed.
 Print Assumptions do_safe_refuted_partial_write.
 
+(* finding 22, repaired by 8cdbcdc (the switch fx_exc_only_from_packet; [before_8cdbcdc] = every repair but that one):
+   a callback that fails with an error wrapping a *ch.Exception ([PContX]; for the code as it is now just a failing
+   callback, covered by do_safe like any other) was taken for the server's exception - Do returned with the client
+   open in the middle of the server's stream, no Cancel sent *)
+Theorem do_safe_refuted_callback_exception :
+  ~ (forall sc sched s, wf_prog true (sc_prog sc) = true -> s = run before_8cdbcdc sc sched (init sc) ->
+       terminal s = true -> failed s = true -> safe s).
+Proof. exact do_safe_refuted_callback_exception_thm. Qed.
+Print Assumptions do_safe_refuted_callback_exception.
+
+Theorem do_safe_refuted_callback_exception_witness : let s := run before_8cdbcdc sc_w22 sch_w22 (init sc_w22) in
+  wf_prog true (sc_prog sc_w22) = true /\ terminal s = true /\ failed s = true /\ closed s = false /\
+  ended s = false /\ count_cancel (wire s) = 0.
+Proof. exact witness_22. Qed.
+Print Assumptions do_safe_refuted_callback_exception_witness.
+
 (* non-vacuity: the three witness schedules, on the code as it is now, end in a failed query with the client
    closed (7, 9) or open and clean (8) *)
 Example c04_witness :
@@ -133,3 +189,19 @@ Example c04_witness :
   (terminal s8, failed s8, closed s8, gotexc s8, pend_chunks s8, out_boundary (wire s8)) = (true, true, false, true, [], true) /\
   (terminal s9, failed s9, closed s9, wire s9) = (true, true, true, [WChunk true; WChunk false; WPart]).
 Proof. vm_compute. repeat split; reflexivity. Qed.
+
+(* non-vacuity of the above: the query whose encoding fails ends failed and closed, having written only the Cancel
+   packet of the cancel-watch goroutine (the sender's failure ends the group's context), nothing is pending and
+   the next request is rejected; with a Close that reports an error the outcome is the same *)
+Example c04_witness_sendquery_fails :
+  let s := run all_fixed sc_wx sch_wx (init sc_wx) in
+  let s' := run all_fixed (with_close_err true sc_wx) sch_wx (init (with_close_err true sc_wx)) in
+  (terminal s, failed s, closed s, wire s, pend_chunks s, fst (next_request s)) = (true, true, true, [WCancel], [], ReqRejected) /\
+  (terminal s', failed s', closed s', nclose s') = (true, true, true, 1).
+Proof. vm_compute. split; reflexivity. Qed.
+
+(* the schedule of finding 22 on the code as it is now: cancelled and closed *)
+Example c04_witness_callback_exception :
+  let s := run all_fixed sc_w22 sch_w22 (init sc_w22) in
+  (terminal s, failed s, closed s, gotexc s, wire s) = (true, true, true, false, [WChunk true; WCancel]).
+Proof. vm_compute. reflexivity. Qed.
